@@ -256,7 +256,8 @@ func (n *Namespace) doConnect(socket *serverSocket) error {
 }
 
 func (n *Namespace) remove(socket *serverSocket) {
-	if _, ok := n.sockets.get(socket.ID()); ok {
+	// A recovered socket has the ID of its predecessor. Remove only if it is this socket that is registered.
+	if registered, ok := n.sockets.get(socket.ID()); ok && registered == ServerSocket(socket) {
 		n.sockets.remove(socket.ID())
 	} else {
 		n.debug.Log("Ignoring remove for", socket.ID())
